@@ -273,6 +273,37 @@ def consistent(known: Dict[Term, bool], hard: Term, training: Term, h: bool, tr:
     return True
 
 
+def r10f(ctx, rule='R10f'):
+    """What export materialises is chosen from the raw coefficients only: the sampled
+    coefficients (theta_alpha) are whatever the last forward pass left -- stale after an
+    optimiser step or a load, noisy after a Gumbel training pass, not refreshed at all when
+    sampling is disabled -- so the export of a layer (and the selected_* properties summary
+    reports from) must not read them."""
+    repo = ctx.repo
+    n = 0
+    for ci in mps_layer_classes(ctx):
+        exp = repo.find_method(ci, 'export')
+        if exp is None:
+            continue
+        n += 1
+        reads = []
+        for p in paths(repo, exp):
+            for e in p.events:
+                for d in e.data:
+                    if isinstance(d, tuple) and mentions(
+                            d, lambda x: x[0] == 'attr' and x[2] == 'theta_alpha'):
+                        ln = getattr(e.node, 'lineno', 0)
+                        if ln not in reads:
+                            reads.append(ln)
+        ctx.ob(rule, f'{ci.name}.export selects from the raw coefficients', not reads,
+               'export does not read theta_alpha' if not reads else
+               f'export reads the sampled coefficients theta_alpha (line(s) {reads[:3]}): what is '
+               f'exported is the arg-max of the last sample, while summary() reports the arg-max '
+               f'of alpha; they differ whenever the sample is stale (disable_sampling, '
+               f'coefficients set or loaded after the last forward, Gumbel noise)', where(exp))
+    ctx.floor(rule, 'MPS layer export methods', n, 4)
+
+
 def r10d(ctx):
     """The sampler options reach every quantizer / combiner in their own slot: a layer that
     forwards update_softmax_options must not exchange hard / gumbel / ... on the way."""
@@ -376,6 +407,7 @@ def run(ctx):
     r10b(ctx)
     r10c(ctx)
     r10d(ctx)
+    r10f(ctx)
     ctx.assume('temperature > 0 (division by it and softmax along dim 0 preserve the arg-max); no '
                'ties among coefficients')
     ctx.assume('F.softmax / F.gumbel_softmax along dim 0 return non-negative vectors summing to '
